@@ -973,7 +973,7 @@ impl InterpDriver {
                                 bits_at.push(cls);
                                 ctx.probe(&format!("op_ok:{}", name));
                                 if states.len() > bound + 1 {
-                                    ctx.violate("loop", format!("loop:more than {} steps", "flattened-size+1"), format!("{} successful steps on a program of {} bits", states.len() - 1, total_bits));
+                                    ctx.violate("loop", format!("loop:more than {} steps", "4*flattened-size+16"), format!("{} successful steps on a program of {} bits", states.len() - 1, total_bits));
                                     return;
                                 }
                             }
@@ -1406,7 +1406,7 @@ impl InterpDriver {
                     loop {
                         guard_steps += 1;
                         if guard_steps > 4 * total_bits + 32 {
-                            ctx.violate("loop", "loop:drain".into(), "next() did not terminate within flattened-size+4 calls".into());
+                            ctx.violate("loop", "loop:drain".into(), "next() did not terminate within 4*flattened-size+32 calls".into());
                             return;
                         }
                         match guard(|| it.itp.next()) {
